@@ -18,7 +18,7 @@ THEOREMS = ["Nmfu.C07_language_exact", "Nmfu.Rx.accepts_iff", "Nmfu.Rx.dead_iff_
             "Nmfu.C01_machine_refines_reference", "Nmfu.C07_match_consumes", "Nmfu.C07_match_lookahead_end", "Nmfu.C07_match_mismatch"]
 
 ATOMS = ["a", "b", "[ab]", "[^a]", ".", "\\d", "c"]
-SUFF = ["", "?", "*", "+", "{2}", "{1,2}", "{2,}"]
+SUFF = ["", "?", "*", "+", "{2}", "{1,2}", "{2,}", "{2,2}", "{0,1}", "{1,1}"]
 
 
 def small_regexes(max_atoms):
@@ -51,7 +51,7 @@ def random_regex(rng, depth=0):
 
     def piece(d):
         a = atom(d)
-        return a + rng.choice(["", "", "", "?", "*", "+", "{2}", "{1,3}", "{2,}"])
+        return a + rng.choice(["", "", "", "?", "*", "+", "{2}", "{1,3}", "{2,}", "{2,2}", "{0,2}", "{3,3}"])
 
     def seq(d):
         return "".join(piece(d) for _ in range(rng.randint(1, 3 - d)))
@@ -79,7 +79,7 @@ def random_binary_regex(rng):
         return "00"
 
     def seq(d):
-        return "".join(atom(d) + rng.choice(["", "", "?", "*", "+", "{2}"]) for _ in range(rng.randint(1, 3)))
+        return "".join(atom(d) + rng.choice(["", "", "?", "*", "+", "{2}", "{2,2}", "{1,2}"]) for _ in range(rng.randint(1, 3)))
     return "|".join(seq(0) for _ in range(rng.choice([1, 1, 2])))
 
 
